@@ -137,7 +137,7 @@ Definition cells_ok (l : list (pair node)) : Prop :=
 
 Definition index_ok (m : list (N * nat)) (l : list (pair node)) : Prop :=
   (forall j h k c, nth_error l j = Some (h, k, c) -> exists_ c = true -> idx_get m (hash k) = Some j) /\
-  (forall h i, idx_get m h = Some i -> i < length l).
+  (forall h i, idx_get m h = Some i -> exists k c, nth_error l i = Some (h, k, c)).
 
 Definition nodup_live (l : list (pair node)) : Prop :=
   forall j1 j2 h1 h2 k c1 c2,
@@ -157,9 +157,7 @@ Proof.
   2:{ rewrite (linear_search_spec _ _ 0 (size (pv s)) W KE) by lia. reflexivity. }
   destruct (IO m eq_refl) as (I1 & I2).
   destruct (idx_get m (hash key)) as [i|] eqn:EG.
-  - specialize (I2 _ _ EG). rewrite (At_spec _ _ W).
-    destruct (nth_error (to_list (pv s)) i) as [[[h k] c]|] eqn:E.
-    2:{ apply nth_error_None in E. lia. }
+  - destruct (I2 _ _ EG) as (k & c & E). rewrite (At_spec _ _ W), E. set (h := hash key) in E.
     destruct (bytes_eqb k key) eqn:EK.
     + apply bytes_eqb_eq in EK. subst k.
       destruct (CO _ _ _ _ E) as (C1 & C2).
